@@ -34,6 +34,7 @@ type Exec struct {
 	reachLogMemo map[*ssa.Function][]string
 	unknownCode  bool
 	lastAxiomPattern string
+	softErr          string
 	ghosts   map[string]*GhostFunc
 
 	checks   []*Check
